@@ -240,10 +240,25 @@ func newXB(c map[string]any) *xb {
 		}
 		b.filler = kept
 	}
+	// notail: no filler above the last f1 group, so the model keys of the last group are the END of the key space
+	// (a right side that deletes a suffix then has its tail leaf inside the shared part; rows added by left come after it)
+	if geti("notail", 0) > 0 {
+		maxX := b.X[b.f1s[len(b.f1s)-1]]
+		kept := b.filler[:0]
+		for _, r := range b.filler {
+			if r.f1 < maxX {
+				kept = append(kept, r)
+			}
+		}
+		b.filler = kept
+	}
 	// filler inside the groups (between the f2 intervals), after X is final
 	if inner > 0 {
 		for _, a := range b.f1s {
 			for j := -1; j < len(b.f2s); j++ {
+				if geti("notail", 0) > 0 && a == b.f1s[len(b.f1s)-1] && j == len(b.f2s)-1 {
+					continue
+				}
 				var lo, hi int64
 				if j < 0 {
 					lo, hi = int64(b.f2s[0])*xS2-xS2/2, int64(b.f2s[0])*xS2
